@@ -303,6 +303,18 @@ func (e *encExec) Do(o *Out, f []string) string {
 		if bytes.Equal(index.Bool(false), index.Bool(true)) {
 			o.Fail("C18", "bool-injective", nil, "Bool(false) == Bool(true)")
 		}
+		// keys are composed by appending to them (index.Key(append(index.Bool(b), more...))): the
+		// encoder's answers stay what they were afterwards
+		f0, t0 := bytes.Clone(index.Bool(false)), bytes.Clone(index.Bool(true))
+		for _, b := range []bool{false, true} {
+			k1 := append(index.Bool(b), 'x')
+			k2 := append(index.Bool(b), 'x', 'y', 'z')
+			_, _ = k1, k2
+			if !bytes.Equal(index.Bool(false), f0) || !bytes.Equal(index.Bool(true), t0) {
+				o.Fail("C18", "bool-key-aliased", map[string]string{"appended_to": strconv.FormatBool(b)},
+					fmt.Sprintf("after append(index.Bool(%v), 'x'): Bool(false)=%s Bool(true)=%s, before %s %s — equal values no longer give equal keys", b, hx(index.Bool(false)), hx(index.Bool(true)), hx(f0), hx(t0)))
+			}
+		}
 		return hx(index.Bool(false)) + " " + hx(index.Bool(true))
 	case "lpm":
 		d := unhx(f[1])
